@@ -17,6 +17,7 @@ import (
 	"sort"
 	"strconv"
 	"strings"
+	"syscall"
 	"sync"
 	"time"
 )
@@ -380,7 +381,7 @@ func Main(props ...*Prop) {
 			ran++
 			// A race-detector build never gives shadow memory back (dkvmon: ~20 MB per case): when the process has
 			// grown past the limit it stops here and the driver continues the shard in a fresh process.
-			if *out != "" && *one < 0 && ran%8 == 0 && rssMB() > maxRSSMB() {
+			if *out != "" && *one < 0 && ran%8 == 0 && (rssMB() > maxRSSMB() || fdCount() > maxFDs()) {
 				os.Remove(*out + ".cur")
 				os.WriteFile(*out+".next", []byte(strconv.Itoa(i+1)), 0o644)
 				return
@@ -407,6 +408,25 @@ func rssMB() int {
 	}
 	pages, _ := strconv.Atoi(f[1])
 	return pages * os.Getpagesize() >> 20
+}
+
+// fdCount: open file descriptors of this process. Table files of the local file system stay open for the life of
+// their object and pinned (dead-process) objects are never collected, so a long shard runs into EMFILE
+// ("fork/exec /usr/bin/mkdir: too many open files", then empty files and EOF errors everywhere).
+func fdCount() int {
+	es, err := os.ReadDir("/proc/self/fd")
+	if err != nil {
+		return 0
+	}
+	return len(es)
+}
+
+func maxFDs() int {
+	var lim syscall.Rlimit
+	if syscall.Getrlimit(syscall.RLIMIT_NOFILE, &lim) == nil && lim.Cur > 64 && lim.Cur < 1<<20 {
+		return int(lim.Cur) / 3
+	}
+	return 300
 }
 
 func maxRSSMB() int {
